@@ -10,6 +10,21 @@ use serde_json::{json, Value};
 const ALPHABET: [char; 17] = ['%', '\\', '{', '}', ':', 'p', 'A', 'q', 'n', '0', '1', '7', '8', '@', 'x', ' ', 'f'];
 
 pub fn judge(s: &str) -> Verdict {
+    let v = judge_quoted(s);
+    // the same format given as an unquoted word (when it can be one) must segment identically
+    if let Verdict::Pass { .. } = v {
+        if crate::render::bare_ok(s) {
+            let q = catch(|| parse(&format!("-printf '{s}'"))).ok().and_then(|r| r.ok()).map(|r| from_ast(&r.1));
+            let b = catch(|| parse(&format!("-printf {s}"))).ok().and_then(|r| r.ok()).map(|r| from_ast(&r.1));
+            if q != b {
+                return Verdict::Fail(format!("format {s:?}: quoted it gives {q:?}, as an unquoted word it gives {b:?}"));
+            }
+        }
+    }
+    v
+}
+
+fn judge_quoted(s: &str) -> Verdict {
     if s.is_empty() {
         return Verdict::Skip("empty format is not expressible as an argument word");
     }
@@ -186,6 +201,20 @@ pub fn run(ctx: &Ctx) -> Report {
     total.merge(st);
     total.exhaustive_parts.push("every documented directive/escape alone, between literals, and every ordered pair".into());
 
+    // look-alikes: non-ASCII characters whose low byte equals that of '%', '\\', a digit, a letter of a
+    // directive: they are ordinary literal text
+    let mut stk = Stats::new();
+    for e in &els {
+        for k in 0..4 {
+            let all = lookalike_string(e, k);
+            let rest: String = e.chars().take(1).chain(lookalike_string(&e.chars().skip(1).collect::<String>(), k).chars()).collect();
+            for s in [all.clone(), rest, format!("x{all}y"), format!("\\{all}"), format!("%p{all}\\n")] {
+                let v = judge(&s);
+                stk.record(&v, stable_hash(&s), true, || case_json(&s));
+            }
+        }
+    }
+    total.merge(stk);
     // non-ASCII literal text around every documented element (byte/char offsets), and pairs of
     // formats of which one is a prefix of the other, parsed back to back in both orders (a result
     // must not depend on the previous call)
